@@ -575,3 +575,171 @@ def gen_C11(r):
 
 
 GEN["C11"] = gen_C11
+
+
+# ---------------------------------------------------------------------------------------------
+
+def _plants(r):
+    items = []
+    pool = [
+        {"kind": "file", "path": "notes.txt"},
+        {"kind": "file", "path": "p/readme.task.123"},                      # a *file* with a look-alike name
+        {"kind": "dir", "path": "misc/stuff", "files": ["a.txt", "deep/b.txt"]},
+        {"kind": "dir", "path": "zzz.task.12345", "files": ["old.csv"]},       # unrecorded experiment output
+        {"kind": "dir", "path": "p/q/old-run.task.777", "files": ["x/y.bin"]},
+        {"kind": "dir", "path": "newpkg/sub/t_1.task.5", "files": []},
+        {"kind": "dir", "path": "manual.task", "files": ["keep.txt"]},         # looks like a run_command output
+        {"kind": "dir", "path": "manual.task/inner.task.9", "files": ["keep2.txt"]},
+        {"kind": "dir", "path": "inner.task.5", "files": ["nested.txt"], "inside": "any", "idx": r.randrange(5)},
+        {"kind": "dir", "path": "sub/deep.task.42", "files": ["nested.txt"], "inside": "exp", "idx": r.randrange(5)},
+        {"kind": "dir", "path": "x.task.0", "files": ["zero.txt"]},            # timestamp 0 is not a version id
+        {"kind": "dir", "path": "bad name.task.5", "files": ["f"]},
+    ]
+    for it in pool:
+        if r.random() < 0.3:
+            items.append(it)
+    if r.random() < 0.25:
+        items.append({"kind": "dir", "outside": True, "path": "outside/data/y.task.77", "files": ["precious.txt"]})
+        items.append({"kind": "dir", "outside": True, "path": "outside/data/plain", "files": ["p.txt"]})
+        items.append({"kind": "symlink", "path": r.choice(["ext", "p/ext"]), "target_outside": "outside/data"})
+    if r.random() < 0.15:
+        items.append({"kind": "dir", "outside": True, "path": "outside/one", "files": ["o.txt"]})
+        items.append({"kind": "symlink", "path": "linked.task.99", "target_outside": "outside/one"})
+    return items
+
+
+def gen_C13(r):
+    scn = _base(r, n=(2, 6), kinds={"exp": 7, "cmd": 2, "group": 1, "combine": 1}, p_par=0.4, mon=True,
+                p_async=(0.0, 1e-3))
+    ops = []
+    have_arch = False
+    for k in range(r.randint(1, 4)):
+        op = _run_op(r, scn["tasks"], jobs_choices=(None, None, 2), again_p=0.5, fail_p=r.choice([0.0, 0.3, 0.5]),
+                     files=True, cwds=("",), stop_early_p=0.15)
+        f = r.random()
+        if f < 0.15:
+            op["signal"] = {"sig": r.choice(["INT", "TERM"]), "cp": int(10 ** r.uniform(2.0, 3.6))}
+        elif f < 0.3:
+            op["kill"] = int(10 ** r.uniform(2.0, 3.6))
+        ops.append(op)
+        if r.random() < 0.25 and not have_arch:
+            ops.append({"op": "archive", "out": "A0", "cwd": ""})
+            have_arch = True
+    if have_arch and r.random() < 0.7:
+        if r.random() < 0.5:
+            ops.append({"op": "clean", "cwd": ""})
+        rop = {"op": "restore", "archive": "A0", "cwd": ""}
+        c = r.random()
+        if c < 0.3:
+            rop["kill"] = int(10 ** r.uniform(1.8, 3.2))
+        elif c < 0.5:
+            rop["corrupt"] = {"kind": "missing_member", "idx": r.randrange(3)}
+        ops.append(rop)
+    if r.random() < 0.7:
+        ops.append({"op": "plant", "items": _plants(r)})
+    n_gc = r.choice([1, 1, 2])
+    for k in range(n_gc):
+        ops.append({"op": "gc", "flags": {"dry": r.random() < 0.45, "verbose": r.random() < 0.4}, "cwd": ""})
+    if r.random() < 0.3:
+        ops.append(_run_op(r, scn["tasks"], jobs_choices=(None,), again_p=0.0, files=False, cwds=("",)))
+    scn["history"] = ops
+    return scn
+
+
+GEN["C13"] = gen_C13
+
+
+# ---------------------------------------------------------------------------------------------
+
+def gen_C18(r):
+    pk = _pkgs(r)
+    for _ in range(20):
+        tasks = S.gen_graph(r, r.randint(3, 8), {"exp": 4, "cmd": 3, "group": 1, "combine": 3}, pk, p_par=0.4)
+        if any(d["kind"] == "combine" for d in tasks.values()):
+            break
+    scn = {"epoch": 1_700_000_000 + r.randrange(10**6), "tasks": tasks, "pkgs": pk,
+           "git": {"mode": "none"}, "disable_git": r.random() < 0.6, "history": [],
+           "knobs": S.gen_knobs(r, mon=False, p_async_choices=(0.0,))}
+    combines = [t for t, d in tasks.items() if d["kind"] == "combine"]
+    ops = []
+    if not scn["disable_git"] and r.random() < 0.5:
+        ops += [{"op": "git", "action": "init"}, {"op": "git", "action": "commit", "name": "c0"}]
+    for k in range(r.randint(1, 4)):
+        tgt = r.choice(combines) if combines and r.random() < 0.7 else S.pick_target(r, tasks)
+        op = _run_op(r, tasks, jobs_choices=(None, None, 2, 3), again_p=0.5 if k else 0.0,
+                     fail_p=r.choice([0.0, 0.0, 0.15]), files=False, cwds=[""] + pk, target=tgt)
+        for t, d in tasks.items():
+            if d["kind"] in ("exp", "cmd") and op["scripts"].get(t):
+                for sc in op["scripts"][t]:
+                    if r.random() < 0.6:
+                        sc["steps"].append(["file", r.choice(["res.csv", "d/x.bin"]), {"k": "bin", "n": 10, "seed": r.randrange(1 << 30)}])
+        if combines and r.random() < 0.2:
+            c = r.choice(combines)
+            deps = [d for d in tasks[c]["deps"] if tasks[d]["kind"] != "group"]
+            if deps:
+                d = r.choice(deps)
+                from . import model as M_
+
+                ops.append({"op": "plant", "items": [{"kind": r.choice(["file", "dir"]),
+                                                      "path": M_.out_dir_rel(c) + "/" + S.split_tid(d)[1],
+                                                      "files": ["mine.txt"]}]})
+                op["combine_conflict_hint"] = c
+        ops.append(op)
+        if ops[0]["op"] == "git" and r.random() < 0.3:
+            ops.append({"op": "git", "action": "commit", "name": "c%d" % (k + 1)})
+    scn["history"] = ops
+    return scn
+
+
+GEN["C18"] = gen_C18
+
+
+def gen_C17(r):
+    pk = _pkgs(r)
+    tasks = S.gen_graph(r, r.randint(2, 6), KW_ALL, pk, p_par=0.4)
+    scn = {"epoch": 1_700_000_000 + r.randrange(10**6), "tasks": tasks, "pkgs": pk + ["nocond", "nocond/deeper"],
+           "git": {"mode": "none"}, "disable_git": r.random() < 0.6, "history": [],
+           "knobs": S.gen_knobs(r, mon=False, p_async_choices=(0.0,))}
+    from . import model as M_
+
+    cwd_pool = [p for p in pk if p] + ["nocond", "nocond/deeper", "cond-out", "cond-out"] + \
+        ["cond-out/" + M_.out_dir_rel(t) for t, d in tasks.items() if d["kind"] in ("cmd", "combine")]
+    for t in tasks:
+        p = S.split_tid(t)[0]
+        if p:
+            cwd_pool.append("cond-out/" + p)
+    ops = []
+    if not scn["disable_git"] and r.random() < 0.4:
+        ops += [{"op": "git", "action": "init"}, {"op": "git", "action": "commit", "name": "c0"}]
+    have_arch = None
+    for k in range(r.randint(2, 8)):
+        c = r.random()
+        cwd = r.choice(cwd_pool)
+        if c < 0.35 or k == 0:
+            op = _run_op(r, tasks, jobs_choices=(None, None, 2), again_p=0.4, fail_p=r.choice([0.0, 0.2, 0.4]),
+                         files=True, cwds=(cwd,), target=r.choice(list(tasks)) if r.random() < 0.5 else None)
+            if r.random() < 0.15:
+                op["flags"]["check"] = True
+        elif c < 0.55:
+            op = {"op": "where", "target": r.choice(list(tasks)),
+                  "flags": {"project": r.random() < 0.4, "nonexist": r.random() < 0.3}, "cwd": cwd}
+        elif c < 0.75:
+            op = {"op": "gc", "flags": {"dry": r.random() < 0.5, "verbose": r.random() < 0.5}, "cwd": cwd}
+        elif c < 0.87:
+            name = "A%d" % k if r.random() < 0.7 else None
+            op = {"op": "archive", "target": r.choice([None, None] + list(tasks)), "out": name,
+                  "flags": {"latest": r.random() < 0.3}, "cwd": cwd}
+            if name:
+                have_arch = name
+        elif c < 0.95 and have_arch:
+            if r.random() < 0.5:
+                ops.append({"op": "clean", "cwd": r.choice(cwd_pool)})
+            op = {"op": "restore", "archive": have_arch, "cwd": cwd}
+        else:
+            op = {"op": "clean", "cwd": cwd}
+        ops.append(op)
+    scn["history"] = ops
+    return scn
+
+
+GEN["C17"] = gen_C17
